@@ -109,7 +109,7 @@ def run(ctx):
                     "wait called with a lock that is not held on the queue mutex here")
             lam = skip(a[1])
             predicate_lambdas[lam["key"]] = (f, c)
-            bodies = F.by_key.get(lam["key"], [])
+            bodies = F.by_lid.get(lam.get("lid"), [])
             if not bodies:
                 R.incomplete("R-C17-3", inst, f.loc(c), "predicate body not found")
                 continue
